@@ -42,6 +42,9 @@ pub struct CfgOpts {
     /// per mille of X25519 sessions in which a pre-shared remote static key is given in a
     /// non-canonical encoding (p + k, k in 2..=18), which RFC 7748 requires to be accepted
     pub noncanonical_rs: u32,
+    /// per mille of sessions in which both parties hold the SAME static key pair (shared service
+    /// identity / self-connection; Noise has no rule against it)
+    pub same_statics: u32,
     /// use exactly this protocol name (systematic enumerations)
     pub force_name: Option<String>,
     /// use exactly this backend on both nodes
@@ -62,6 +65,7 @@ impl Default for CfgOpts {
             surplus_rs: 0,
             evil_pub: 0,
             noncanonical_rs: 0,
+            same_statics: 0,
             force_name: None,
             force_backend: None,
         }
@@ -201,10 +205,21 @@ pub fn gen_session(rng: &mut Rng, name: &str, opts: &CfgOpts, seed_salt: u64) ->
             rp = c.1;
         }
     }
+    if opts.same_statics > 0 && rng.chance(opts.same_statics as u64, 1000) {
+        rs = is.clone();
+        rp = ip.clone();
+    }
     let prologue = gen_prologue(rng);
     let mut psks = vec![];
     for &m in &proto.psk_mods {
-        psks.push(PskCfg { idx: m, key: rng.bytes(32), at_boot: true });
+        // special PSK values now and then (a PSK has no invalid values: all-zero is WireGuard's
+        // "no PSK configured" default for IKpsk2)
+        let key = match rng.below(40) {
+            0 => vec![0u8; 32],
+            1 => vec![0xFF; 32],
+            _ => rng.bytes(32),
+        };
+        psks.push(PskCfg { idx: m, key, at_boot: true });
     }
     let mk = |initiator: bool, rng: &mut Rng| {
         let (mys, peerp) = if initiator { (&is, &rp) } else { (&rs, &ip) };
@@ -424,9 +439,15 @@ pub struct Driver<'a> {
     pub hs_faults: u32,
 }
 
-const BOUNDARY_NONCES: [u64; 9] = [
+const BOUNDARY_NONCES: [u64; 15] = [
     0,
     1,
+    255,
+    256,
+    65_535,
+    65_536,
+    (1 << 24) - 1,
+    1 << 24,
     0xFFFF_FFFF,
     0x1_0000_0000,
     1 << 63,
@@ -516,6 +537,19 @@ impl<'a> Driver<'a> {
         if p.query > 0 && self.rng.chance(1, 4) {
             let n = if self.rng.chance(1, 2) { a } else { b };
             step!(self, Op::Keygen { node: n as u8 });
+        }
+        // replacing an already supplied PSK through set_psk: on both sides (the session must then
+        // run on the new key) or - in a mismatch configuration - on one side only
+        let psk_idxs: Vec<u8> = self.w.cfg.nodes[a].psks.iter().filter(|c| c.at_boot).map(|c| c.idx).collect();
+        if !psk_idxs.is_empty() {
+            let idx = psk_idxs[self.rng.usize_below(psk_idxs.len())];
+            if s == 0 && self.w.cfg.stratum.contains("psk-replace-one-side") {
+                let n = if self.w.cfg.stratum.contains("psk-replace-one-side-a") { a } else { b };
+                step!(self, Op::SetPsk { node: n as u8, idx, kind: PskKind::Wrong });
+            } else if p.query > 0 && self.rng.chance(1, 12) {
+                step!(self, Op::SetPsk { node: a as u8, idx, kind: PskKind::Wrong });
+                step!(self, Op::SetPsk { node: b as u8, idx, kind: PskKind::Wrong });
+            }
         }
         let mut guard = 0;
         let mut redeliveries = 0;
